@@ -153,5 +153,5 @@ Definition ref_write (layout : list (bool * list (bytes * bytes))) (sync : bytes
 (* the conditions under which a file is in the grammar *)
 Definition file_wf (layout : list (bool * list (bytes * bytes))) (sync : bytes) (blocks : list rblock) : Prop :=
   length sync = 16%nat /\
-  Forall (fun blk => snd blk <> [] /\ (length (snd blk) < 100000)%nat) layout /\
+  Forall (fun blk => snd blk <> [] /\ N.of_nat (length (snd blk)) < 100000) layout /\
   Forall (fun b => (0 <= rb_count b <= I64_MAX)%Z) blocks.
